@@ -58,6 +58,21 @@ structure CtlRelI (w : World γ) (c2 : Controller γ) (Gd : SGuard (Disp γ)) (I
   handleEnd : ∀ d, Inv d → w.ctl.handleEnd d.ctl = c2.handleEnd d.ctl ∨ ∃ e, G e ∧ (w.ctl.handleEnd d.ctl).2.2 = some e
   initial : ∀ g, w.ctl.initialFlags g = c2.initialFlags g
 
+/-- the guard that never refuses -/
+def noGuard : SGuard (Disp γ) := ⟨fun _ _ _ => none, fun _ _ _ => none⟩
+
+/-- the hypotheses are consistent: a controller against itself, no guard, no invariant, empty error class -/
+theorem CtlRelI.refl (w : World γ) : CtlRelI w w.ctl noGuard (fun _ => True) (fun _ => False) where
+  ops := fun inp =>
+    ⟨fun lx k₁ k₂ hk => by obtain ⟨rfl, _⟩ := hk; exact Or.inl ⟨⟨rfl, trivial⟩, rfl⟩,
+     fun lx k₁ k₂ hk => by obtain ⟨rfl, _⟩ := hk; exact Or.inl ⟨⟨rfl, trivial⟩, rfl⟩,
+     fun n ns k₁ k₂ hk => by obtain ⟨rfl, _⟩ := hk; exact Or.inl ⟨⟨rfl, trivial⟩, rfl⟩,
+     fun n k₁ k₂ hk => by obtain ⟨rfl, _⟩ := hk; exact Or.inl ⟨⟨rfl, trivial⟩, rfl⟩⟩
+  bail := rfl
+  flush := fun _ _ _ _ _ _ => trivial
+  handleEnd := fun _ _ => Or.inl rfl
+  initial := fun _ => rfl
+
 variable (h : CtlRelI w c2 Gd Inv G) (ht : EmitsChecked w.tbl = true)
 include h
 
